@@ -66,6 +66,7 @@ func laRunKind(c *Ctx) {
 	laRLEDecoder(c, map[string]bool{"accepts": true, "unpack-all": true})
 	laRLERunValue(c)
 	laBufGrowth(c)
+	laNarrowIndex(c)
 }
 
 func laRunKindCore(c *Ctx) {
@@ -1348,6 +1349,59 @@ func laRLEThresholds(c *Ctx) {
 		}
 	}
 	r.floor("LA-runkind/repeat-thresholds", 2, "Write (stop buffering), Write/Bytes (emit)")
+	// the run value is replaced only after a pending run has been emitted: from the stop-buffering threshold on the
+	// repeated values live nowhere but in (run value, repeat counter), so a store of a new run value must come after the
+	// test that emits the pending run — in the same function
+	var prev *types.Var
+	for _, b := range runWriter.Blocks {
+		for _, ins := range b.Instrs {
+			if call, ok := ins.(*ssa.Call); ok {
+				if sc := call.Call.StaticCallee(); sc != nil && u.pkgPathOf(sc) == rlePath {
+					for i, a := range callArgs(&call.Call) {
+						if i < len(sc.Params) {
+							if bt, ok := sc.Params[i].Type().Underlying().(*types.Basic); ok && bt.Kind() == types.Uint8 {
+								if fl := fieldOfLoad(stripConvert(a)); fl != nil && fl != rep {
+									prev = fl
+								}
+							}
+						}
+					}
+				}
+			}
+		}
+	}
+	if prev != nil {
+		nPrev := 0
+		for _, f := range fns {
+			for _, b := range f.Blocks {
+				for _, ins := range b.Instrs {
+					st, ok := ins.(*ssa.Store)
+					if !ok || fieldOf(st.Addr) != prev {
+						continue
+					}
+					if fa, ok := st.Addr.(*ssa.FieldAddr); ok {
+						if _, fresh := fa.X.(*ssa.Alloc); fresh {
+							continue // the constructor's literal
+						}
+					}
+					nPrev++
+					key := fmt.Sprintf("%s run value replaced #%d", u.FnName(f), nPrev)
+					emitted := false
+					for _, e := range emits {
+						if e.fn == f && (e.iff.Block() == b || e.iff.Block().Dominates(b)) {
+							emitted = true
+						}
+					}
+					if emitted {
+						r.ok("LA-runkind", key, u.Pos(st.Pos()), "after the test that emits a pending run")
+					} else {
+						r.bad("LA-runkind", key, u.Pos(st.Pos()), "the run value is replaced here without the pending run having been emitted first (no `repeat counter >= threshold -> write the RLE run` test before it in this function): the values of a pending run exist only as (run value, counter) and are lost")
+					}
+				}
+			}
+		}
+		r.count("LA-runkind/run-value-stores", nPrev)
+	}
 	// decoder: no narrowing of the run header
 	for _, f := range fns {
 		for _, p := range f.Params {
